@@ -8,7 +8,7 @@ import json
 
 from common import *
 
-IMPORTS = "Cluster.Auth"
+IMPORTS = "Cluster.Auth Cluster.Gate"
 
 S_ALPHA = ["name 1 2 3", "sstatus 0", "cstatus 1", "cstatus 0", "schal 1 2 7", "cchal 5 k:0:I",
            "cchal 5 k:1:I", "sack k:0:I", "empty", "start", "force"]
@@ -194,7 +194,7 @@ def run(chk):
     quick = chk.tier == "quick"
     ok_proofs = chk.proofs()
     factor = 1 if ok_proofs else 10
-    build = cargo_build(["eng_auth"])
+    build = cargo_build(["eng_auth", "eng_gate"])
     if not build["ok"]:
         ok, log = repo_builds_without_hooks()
         if not ok:
